@@ -54,9 +54,9 @@ ASSUMPTIONS = [
 ]
 MIN_EVENTS = {
     'quick': {'oracle_evals': 150000, 'history_ops': 5000, 'fresh_store_views': 15000, 'roundtrips': 4032,
-              'crash_points_line': 280, 'crash_points_write': 220, 'crash_points_fs': 130,
-              'crash_fired': 650, 'crash_points_update': 450, 'crash_points_delete': 100,
-              'crash_points_delete_all': 90, 'crash_states_inspected': 650, 'recovery_updates': 650,
+              'crash_points_line': 180, 'crash_points_write': 100, 'crash_points_fs': 80,
+              'crash_fired': 380, 'crash_points_update': 180, 'crash_points_delete': 80,
+              'crash_points_delete_all': 60, 'crash_states_inspected': 380, 'recovery_updates': 380,
               'strace_runs': 5, 'strace_renames_onto_final': 4},
     'thorough': {'oracle_evals': 300000, 'history_ops': 50000, 'fresh_store_views': 150000, 'roundtrips': 4000,
                  'crash_points_line': 3000, 'crash_points_write': 30000, 'crash_points_fs': 1500,
@@ -1270,19 +1270,21 @@ def plan(tier, seed):
     crash = []
     if quick:
         for c in cfgs:
+            key = (c['init'], c['store'], c['op'])
             if c['stale_tmp']:
+                if key == ('one', 'named', 'delete'):
+                    crash.append(({**c, 'size': 'tiny'}, list(MODES)))
                 continue
-            if c['init'] in ('one', 'multi-default'):
-                modes = ['line', 'fs'] + (['write'] if c['store'] == 'named' and c['init'] == 'one' else [])
+            if c['init'] == 'one':
+                modes = ['line', 'fs']
+                if c['store'] == 'named' and c['op'] in ('update-new', 'delete', 'delete_all'):
+                    modes.append('write')
                 crash.append(({**c, 'size': 'tiny'}, modes))
-            elif (c['init'], c['store'], c['op']) in (('nodir', 'named', 'update-new'), ('nofile', 'named', 'update-new'),
-                                                      ('emptyobj', 'named', 'update-new'),
-                                                      ('nofile', 'default', 'delete_all')):
-                crash.append(({**c, 'size': 'tiny'}, ['line', 'fs', 'write'] if c['op'] == 'update-new'
-                              else ['line', 'fs']))
-        for c in cfgs:
-            if c['stale_tmp'] and c['init'] == 'one' and c['store'] == 'named' and c['op'] in ('update-merge', 'delete'):
-                crash.append(({**c, 'size': 'tiny'}, list(MODES)))
+            elif key in (('multi-default', 'default', 'update-merge'), ('multi-default', 'default', 'delete_all'),
+                         ('nofile', 'default', 'delete_all'), ('emptyobj', 'named-new', 'update-new')):
+                crash.append(({**c, 'size': 'tiny'}, ['line', 'fs']))
+            elif key == ('nodir', 'named', 'update-new'):
+                crash.append(({**c, 'size': 'tiny'}, ['line', 'fs', 'write']))
     else:
         for c in cfgs:
             modes = ['line', 'fs', 'write']
